@@ -15,12 +15,12 @@ Proof. vm_compute. reflexivity. Qed.
 
 (* which of the two recognised programs the source is: the CAS loop *)
 Lemma max_update_is_cas_loop :
-  In {| s_cond := CTrue; s_loc := metrics_loc_maxQuerySize; s_body := BRmw (cas_prog (max_skip (EArg 1)) (EArg 1)) |}
+  In {| s_cond := CTrue; s_loc := metrics_pub_MaxQuerySize; s_body := BRmw (cas_prog (max_skip (EArg 1)) (EArg 1)) |}
      metrics_RecordTokenization.
 Proof. vm_compute. tauto. Qed.
 
 Lemma min_update_is_cas_loop :
-  In {| s_cond := CTrue; s_loc := metrics_loc_minQuerySize; s_body := BRmw (cas_prog (min_skip (EArg 1)) (EArg 1)) |}
+  In {| s_cond := CTrue; s_loc := metrics_pub_MinQuerySize; s_body := BRmw (cas_prog (min_skip (EArg 1)) (EArg 1)) |}
      metrics_RecordTokenization.
 Proof. vm_compute. tauto. Qed.
 
@@ -28,12 +28,12 @@ Proof. vm_compute. tauto. Qed.
 Local Open Scope Z_scope.
 Lemma tokenization_contributes : forall d n e rest,
   let t := start metrics_RecordTokenization (d :: n :: e :: rest) in
-  contrib_total metrics_loc_tokenizeOperations t = 1 /\
-  contrib_total metrics_loc_totalQueryBytes t = n /\
-  contrib_total metrics_loc_tokenizeErrors t = (if e =? 0 then 0 else 1) /\
-  contrib_total metrics_loc_errorsByType t = (if e =? 0 then 0 else 1) /\
-  recorded_total metrics_loc_maxQuerySize t = [n] /\
-  recorded_total metrics_loc_minQuerySize t = [n].
+  contrib_total metrics_pub_TokenizeOperations t = 1 /\
+  contrib_total metrics_pub_TotalBytesProcessed t = n /\
+  contrib_total metrics_pub_TokenizeErrors t = (if e =? 0 then 0 else 1) /\
+  contrib_total metrics_pub_ErrorsByType t = (if e =? 0 then 0 else 1) /\
+  recorded_total metrics_pub_MaxQuerySize t = [n] /\
+  recorded_total metrics_pub_MinQuerySize t = [n].
 Proof.
   intros d n e rest. cbv [start contrib_total recorded_total t_secs t_args]. cbn.
   unfold nthZ; cbn. destruct (e =? 0); cbn; repeat split; lia.
@@ -41,9 +41,9 @@ Qed.
 
 Lemma parse_contributes : forall d n e rest,
   let t := start metrics_RecordParse (d :: n :: e :: rest) in
-  contrib_total metrics_loc_parseOperations t = 1 /\
-  contrib_total metrics_loc_statementsCreated t = n /\
-  contrib_total metrics_loc_parseErrors t = (if e =? 0 then 0 else 1).
+  contrib_total metrics_pub_ParseOperations t = 1 /\
+  contrib_total metrics_pub_StatementsCreated t = n /\
+  contrib_total metrics_pub_ParseErrors t = (if e =? 0 then 0 else 1).
 Proof.
   intros d n e rest. cbv [start contrib_total t_secs t_args]. cbn.
   unfold nthZ; cbn. destruct (e =? 0); cbn; repeat split; lia.
